@@ -63,8 +63,10 @@ def build_base(world):
     return v
 
 
-def do_op(t, sc, pre):
-    """Run the operation the way the docs show for the style; returns nothing, raises on failure."""
+def do_op(t, sc, pre, holder=None):
+    """Run the operation the way the docs show for the style; returns nothing, raises on failure.
+    holder["tx"] receives the Transaction object (it outlives the failure and may be reused by the application)."""
+    holder = {} if holder is None else holder
     op, sty = sc["op"], sc["style"]
     rows1, rows2 = [{"k": 100, "s": "x"}], [{"k": 101, "s": "y"}, {"k": 102, "s": "z"}]
 
@@ -85,13 +87,16 @@ def do_op(t, sc, pre):
         t.snapshot_manager.delete_snapshot(pre["del_snapshot"])
     elif sty == "with_auto":
         with t.new_transaction() as tx:
+            holder["tx"] = tx
             body(tx)
     elif sty == "with_commit":
         with t.new_transaction() as tx:
+            holder["tx"] = tx
             body(tx)
             tx.commit()
     elif sty == "explicit":
         tx = t.new_transaction().begin()
+        holder["tx"] = tx
         try:
             body(tx)
             tx.commit()
@@ -237,11 +242,12 @@ def run_scenario_kind(sc, kind, shard, nshard, tier, double=False):
                 sti = Stepper()
                 inj = Injector(sti, k, fk, phase, second, "local" if sc["world"] == "local" else "s3")
                 outcome, exc = "ok", None
+                holder = {}
                 with wi.env(sti):
                     t = wi.open()
                     sti.enabled = True
                     try:
-                        do_op(t, sc, pre)
+                        do_op(t, sc, pre, holder)
                     except BaseException as e:  # noqa - KeyboardInterrupt / SystemExit are the point
                         outcome, exc = "raise", e
                     sti.enabled = False
@@ -254,7 +260,7 @@ def run_scenario_kind(sc, kind, shard, nshard, tier, double=False):
                     if not inj.fired:
                         res.labels["fault-not-reached"] += 1
                         continue
-                    vio = judge(wi, sc, pre, fk, outcome, exc, sti, inj, failed_handle=t if outcome == "raise" else None)
+                    vio = judge(wi, sc, pre, fk, outcome, exc, sti, inj, failed_handle=t if outcome == "raise" else None, tx=holder.get("tx"), labels=res.labels)
                     if wi.kind == "local":
                         import shutil
 
@@ -265,7 +271,7 @@ def run_scenario_kind(sc, kind, shard, nshard, tier, double=False):
     return res
 
 
-def judge(w, sc, pre, fk, outcome, exc, st, inj, failed_handle=None):
+def judge(w, sc, pre, fk, outcome, exc, st, inj, failed_handle=None, tx=None, labels=None):
     from datashard import AmbiguousCommitError
 
     interrupt = fk in ("ki", "se")
@@ -332,6 +338,24 @@ def judge(w, sc, pre, fk, outcome, exc, st, inj, failed_handle=None):
     files2 = set(current_snapshot(v2)["files"])
     if len(files2 - before_files) != 1 + len(extra) or (before_files - files2):
         return (f"{tag}/uncommitted-files-reachable/{sc['op']}", f"follow-up snapshot files {sorted(files2)} vs state before {sorted(before_files)}")
+    if tx is not None:
+        # the application still holds the Transaction object and reuses it (begin() documents the reset for reuse):
+        # a new attempt that is rolled back must take with it only ITS OWN files, whatever the earlier attempt left on the object
+        try:
+            tx.begin()
+            tx.append_data([{"k": 950, "s": "reused-tx"}])
+            tx.rollback()
+            if labels is not None:
+                labels["tx-object-reused"] += 1
+        except BaseException as e:  # noqa - refusing reuse is allowed; damage is not
+            if labels is not None:
+                labels[f"tx-object-reuse-refused:{type(e).__name__}"] += 1
+        try:
+            v3 = read_view(w.fs())
+        except ReadError as e:
+            return (f"{tag}/reused-transaction-object-damaged-table/{sc['op']}", f"begin + append_data + rollback on the Transaction object of the failed attempt left the table unreadable: {e}")
+        if view_digest(v3) != view_digest(v2):
+            return (f"{tag}/reused-transaction-object-changed-table/{sc['op']}", "begin + append_data + rollback on the Transaction object of the failed attempt changed the committed state")
     return None
 
 
@@ -397,16 +421,17 @@ def replay(case):
         st = Stepper()
         inj = Injector(st, case["k"], case["fault"], case["phase"], case.get("second"), "local" if sc["world"] == "local" else "s3")
         outcome, exc = "ok", None
+        holder = {}
         with base.env(st):
             t = base.open()
             st.enabled = True
             try:
-                do_op(t, sc, pre)
+                do_op(t, sc, pre, holder)
             except BaseException as e:  # noqa
                 outcome, exc = "raise", e
             st.enabled = False
             st.handler = None
             if not inj.fired:
                 return []
-            vio = judge(base, sc, pre, case["fault"], outcome, exc, st, inj, failed_handle=t if outcome == "raise" else None)
+            vio = judge(base, sc, pre, case["fault"], outcome, exc, st, inj, failed_handle=t if outcome == "raise" else None, tx=holder.get("tx"))
         return [{"bucket": vio[0], "what": vio[1]}] if vio else []
